@@ -1,5 +1,7 @@
 """C16 - intermediate results are released as soon as their last consumer has finished."""
 import gc
+import time
+import traceback
 import threading
 
 from hypothesis import given, strategies as st
@@ -49,13 +51,37 @@ def cases(draw, max_nodes):
             g.hashable_refs.append({"n": len(g.nodes) - 1})
         else:
             getattr(g, "add_" + k)()
+    failing = draw(st.sampled_from([0, 0, 1, 2]))
+    gadget = None
+    if failing and draw(st.booleans()):
+        # producer -> failing sole consumer, plus a few calls ordered after the producer that are still to
+        # start when the consumer has failed
+        pnode = g.add_call(stored=False)
+        f = g.add({"k": "call", "args": [{"n": pnode}], "kwargs": [], "deps": [], "scope": g.scope(), "stored": False,
+                   "beh": {"t": "ok"}, "side": None}, hashable=True)
+        g.refs = [r for r in g.refs if r != {"n": pnode}]
+        g.hashable_refs = [r for r in g.hashable_refs if r != {"n": pnode}]
+        last = pnode
+        for _ in range(draw(st.integers(1, 3))):
+            last = g.add({"k": "call", "args": [], "kwargs": [], "deps": [{"n": last}], "scope": g.scope(),
+                          "stored": False, "beh": {"t": "ok"}, "side": None}, hashable=True)
+        gadget = f
     for i, nd in enumerate(g.nodes):
         if nd["k"] == "call":
             nd["fname"] = f"n{i}"
             nd["beh"] = {"t": "ok"}
+            # some consumers fail (the run goes on: max_errors=None); a failed consumer has finished too
+            if failing and not nd.get("stored") and specs.arg_preds(nd) and draw(st.integers(0, 3)) < failing:
+                nd["beh"] = {"t": "raise", "exc": draw(st.sampled_from(["exc", "val"])), "first": -1}
+    if gadget is not None:
+        g.nodes[gadget]["beh"] = {"t": "raise", "exc": "exc", "first": -1}
     spec = {"nodes": g.nodes, "output": g.output()}
+    if gadget is not None:
+        spec["output"] = {"L": [dict(r) for r in g.refs]}
     cfg = {"workers": draw(st.integers(1, 4)), "scheduler": draw(st.sampled_from(["default", "random", None])),
            "rseed": draw(st.integers(0, 999))}
+    if failing:
+        cfg["max_errors"] = draw(st.sampled_from([None, None, None, 5, 0]))
     return {"spec": spec, "cfg": cfg, "registry": use_reg, "sched": draw(harness.schedules(real_share=40))}
 
 
@@ -99,7 +125,7 @@ def check_case(ctx, case, record=True):
             evs = list(rec.events)
         done = set()
         for e in evs:
-            if e[0] == "completed" and e[1] == "run":
+            if e[0] in ("completed", "failed") and e[1] == "run":
                 done.add(tuple(x for x in e[2] if isinstance(x, str) and (x.startswith("harness.n") or x.startswith("vlib.world."))))
         return done
 
@@ -110,7 +136,7 @@ def check_case(ctx, case, record=True):
             nd = nodes[i]
             if nd["k"] == "call":
                 prod = (label_call(i),)
-                if prod not in done:
+                if prod not in done or nd["beh"]["t"] == "raise":
                     continue
                 if i in ent:
                     # raw result is consumed by the store write only
@@ -153,6 +179,8 @@ def check_case(ctx, case, record=True):
                 return
             with lock:
                 stats["early_checked"] += 1
+                if key[0] == "call" and key[1] not in ent and any(nodes[c]["beh"]["t"] == "raise" for c in cons.get(key[1], ())):
+                    stats["after_failure"] = stats.get("after_failure", 0) + 1
 
     w.on_call_start = on_start
     out = harness.execute(lambda: w.run(cfg, registry=use_reg, progress=Progress(lambda: rec)), sc, trace=False)
@@ -163,16 +191,42 @@ def check_case(ctx, case, record=True):
     if record:
         ctx.case(case, stats["early_checked"] > 0,
                  common.sched_classes(case, out) + ["registry" if use_reg else "no_registry",
-                                                    "early_release_checked" if stats["early_checked"] else "no_early_release"])
+                                                    "early_release_checked" if stats["early_checked"] else "no_early_release"]
+                 + (["released_after_failed_consumer"] if stats.get("after_failure") else [])
+                 + (["failing_consumer"] if any(nd["k"] == "call" and nd["beh"]["t"] == "raise" for nd in nodes) else []))
     if out.verdict or out.uncaught:
         ctx.violation(case2, f"scheduler verdict {out.verdict} {out.verdict_info}; uncaught {out.uncaught!r}")
-    if status != "ok":
+    failed_any = any(e[1] == "raise" for e in w.events)
+    if status != "ok" and not failed_any:
         ctx.violation(case2, f"run failed: {err!r} cause {getattr(err, '__cause__', None)!r}")
+    if status == "ok" and failed_any:
+        ctx.violation(case2, "a call failed but run returned normally")
+    # The error of a failed run carries tracebacks whose frames (uberjob's and the harness's) legitimately
+    # reference the run's internals for as long as the caller keeps the error: release them as a caller
+    # dropping the error would, so that what is left is only what uberjob itself still holds.
+    seen_exc = set()
+    stack = [err] + [x for xs in w.raised.values() for x in xs]
+    while stack:
+        x = stack.pop()
+        if x is None or id(x) in seen_exc:
+            continue
+        seen_exc.add(id(x))
+        if x.__traceback__ is not None:
+            traceback.clear_frames(x.__traceback__)
+        stack += [x.__cause__, x.__context__]
+        x.__traceback__ = None
+    del err, stack, x
+    w.raised = {}
     if stats["violation"]:
         ctx.violation(case2, stats["violation"])
     del out
-    gc.collect()
-    alive = [k for k, r in w.tokens.items() if r() is not None]
+    # the harness's own task threads may take a moment to unwind (their frames hold the run's result / error)
+    for _ in range(50):
+        gc.collect()
+        alive = [k for k, r in w.tokens.items() if r() is not None]
+        if not alive:
+            break
+        time.sleep(0.01)
     if alive:
         ctx.violation(case2, f"after run returned and its result was dropped these results are still alive: {alive}")
 
